@@ -491,12 +491,12 @@ def normalise_for_tlc(trace):
     reader needs homogeneous, total records) and fold the independent re-read into the
     close event: if the closed output file does not hold exactly the frames seen through
     the handle, the close event's frames are replaced by a marker no model state equals."""
-    out = {"cfg": trace["cfg"], "ev": []}
+    out = {"cfg": trace["cfg"], "coarse": bool(trace.get("coarse", False)), "ev": []}
     reread_bad = False
     ret = trace["ev"][-1] if trace["ev"] and trace["ev"][-1]["ev"] == "return" else None
     closes = [e for e in trace["ev"] if e["ev"] == "close"]
     if ret is not None and closes and "reread" in ret:
-        want = closes[-1]["frames"]
+        want = closes[-1].get("frames", [])
         for name, fr in ret["reread"].items():
             # every closed output must be readable; the one that holds frames must hold
             # exactly the frames seen through the handle before it was closed
@@ -517,7 +517,7 @@ def normalise_for_tlc(trace):
                               "dt": e.get("dt", 0), "uid": e.get("uid", 0), "content": e.get("content", 0)})
         elif e["ev"] == "close":
             frames = [{"step": f["step"], "time": f["time"], "content": f["content"], "hasrs": f["hasrs"],
-                       "rs": f["rs"], "complete": f["complete"]} for f in e["frames"]]
+                       "rs": f["rs"], "complete": f["complete"]} for f in e.get("frames", [])]
             if reread_bad:
                 frames = frames + [{"step": BOT, "time": BOT, "content": BOT, "hasrs": False, "rs": [], "complete": False}]
             out["ev"].append({"ev": "close", "fs": _fs(e["fs"]), "frames": frames})
